@@ -10,6 +10,11 @@ def build(repo, tier, seed):
     s2, u2 = lazy_c06.construction(repo)
     t_syn, t_und = dataset_tower.tower_obligations(repo)
     d_syn, d_und = dataset_tower.derive_obligations(repo)
+    # inspection inside evaluation (coalesce validates its members, caches take keys()): validate/keys/explain of every class run no body
+    # outside selector positions (law L10, from the traces of the real methods)
+    r10 = classlaws.run(repo, ("L10",))
+    syn = syn + r10["syntactic"]
+    und = und + r10["undecided"]
     import hashlib
     hashes = {"labrea/*.py": hashlib.sha256("".join(m.source for _, m in sorted(repo.modules.items())).encode()).hexdigest()[:16]}
     fns = []
@@ -22,5 +27,6 @@ def build(repo, tier, seed):
             "trusted_base": ["the ghost trace recorded by the symbolic executor (every modular child call, user-callable application, request and cache access is an event)",
                              "obligations are decided on the trace of EVERY path of the real evaluate()/construction method: they hold for all graphs, member counts and dictionaries"],
             "assumptions": ["children are used by contract: 'a body runs' is observed as the evaluate call on the child that owns it",
+                            "validate/keys/explain of every class under contract (used during evaluation by coalesce and by cache fingerprints) run no body outside selector positions: law L10 per class",
                             "construction-time: methods listed in contracts/lazy_c06.py CONSTRUCTORS + Dataset._composed/with_options; decorators (dataset, interface, implements, "
                             "datasetclass, pipeline_step) and functions.py helpers are NOT yet under contract (no claim)"]}
